@@ -244,7 +244,12 @@ class Engine:
                 t = self.models.map_store(kind, t, self.coerce(k, kind.key, st).term, self.coerce(v, kind.val, st).term)
             return V(kind, t)
         if isinstance(val, (VList, VTuple)) and isinstance(kind, Seq):
-            return V(kind, kind.from_terms([self.coerce(x, kind.elem, st).term for x in val.items]))
+            terms = [self.coerce(x, kind.elem, st).term for x in val.items]
+            new = kind.from_terms(terms)
+            if st is not None:
+                new = kind.named(st, new)
+                st.assume(kind.lemma_literal(new, terms))
+            return V(kind, new)
         if isinstance(val, (VList, VTuple)) and isinstance(kind, SetK):
             t = z3.EmptySet(kind.elem.sort())
             for x in val.items:
